@@ -1,6 +1,7 @@
 package zv
 
 import (
+	"fmt"
 	"go/types"
 	"strings"
 
@@ -216,7 +217,7 @@ func checkC19(c *Ctx) {
 		name := red.String()
 		setters := map[string]string{"log.SetFlags": "log.Flags", "log.SetPrefix": "log.Prefix", "log.SetOutput": ""}
 		getCalls := map[string]*ssa.Call{}
-		for _, cl := range Calls(red) {
+		for _, cl := range CallsDeep(red) {
 			if f := CalleeFunc(cl); f != nil && (f.FullName() == "log.Flags" || f.FullName() == "log.Prefix") {
 				getCalls[f.FullName()], _ = cl.(*ssa.Call)
 			}
@@ -260,6 +261,77 @@ func checkC19(c *Ctx) {
 				for i, fv := range restore.FreeVars {
 					bind[fv.Name()] = mk.Bindings[i]
 				}
+				// a method value (saved.restore): look at the method itself; its receiver is the bound value
+				var recvParam *ssa.Parameter
+				var recvVal ssa.Value
+				if strings.HasSuffix(restore.Name(), "$bound") && len(mk.Bindings) == 1 {
+					for _, cl := range Calls(restore) {
+						if sc := StaticCallee(cl); sc != nil && len(sc.Params) > 0 && len(sc.Blocks) > 0 {
+							restore, recvParam, recvVal = sc, sc.Params[0], mk.Bindings[0]
+						}
+					}
+				}
+				// source of a restored value: the getter call whose result was saved
+				source := func(arg ssa.Value) *ssa.Call {
+					if u, isLoad := arg.(*ssa.UnOp); isLoad {
+						if fv, ok := u.X.(*ssa.FreeVar); ok {
+							b := bind[fv.Name()]
+							if al, isAlloc := b.(*ssa.Alloc); isAlloc {
+								b = singleStore(al)
+							}
+							bc, _ := Strip(b).(*ssa.Call)
+							return bc
+						}
+					}
+					// a field of the bound receiver
+					fld := ""
+					switch x := Strip(arg).(type) {
+					case *ssa.Field:
+						if Strip(x.X) == ssa.Value(recvParam) {
+							fld = fieldName(x.X.Type(), x.Field)
+						}
+					case *ssa.UnOp:
+						if fa, ok := x.X.(*ssa.FieldAddr); ok {
+							base := Strip(fa.X)
+							if al, isAlloc := base.(*ssa.Alloc); isAlloc {
+								if sv := singleStore(al); sv != nil {
+									base = Strip(sv)
+								}
+							}
+							if recvParam != nil && base == ssa.Value(recvParam) {
+								fld = fieldName(fa.X.Type(), fa.Field)
+							}
+						}
+					}
+					if fld == "" || recvVal == nil {
+						return nil
+					}
+					named, _ := types.Unalias(deref(recvParam.Type())).(*types.Named)
+					if named == nil {
+						return nil
+					}
+					builder := red
+					if bc, ok := Strip(recvVal).(*ssa.Call); ok {
+						if hh := helperOf(bc); hh != nil {
+							builder = hh
+						}
+					} else if u, ok := Strip(recvVal).(*ssa.UnOp); ok {
+						if al, ok := u.X.(*ssa.Alloc); ok {
+							if sv := singleStore(al); sv != nil {
+								if bc, ok := Strip(sv).(*ssa.Call); ok {
+									if hh := helperOf(bc); hh != nil {
+										builder = hh
+									}
+								}
+							}
+						}
+					}
+					if bf, ok := BuiltFields(builder, named)[fld]; ok && bf.Val != nil {
+						bc, _ := Strip(bf.Val).(*ssa.Call)
+						return bc
+					}
+					return nil
+				}
 				for _, cl := range Calls(restore) {
 					f := CalleeFunc(cl)
 					if f == nil {
@@ -268,24 +340,11 @@ func checkC19(c *Ctx) {
 					arg := cl.Common().Args[0]
 					switch f.FullName() {
 					case "log.SetFlags", "log.SetPrefix":
-						var fv *ssa.FreeVar
-						if u, isLoad := arg.(*ssa.UnOp); isLoad {
-							fv, _ = u.X.(*ssa.FreeVar)
-						}
-						ok := false
-						if fv != nil {
-							b := bind[fv.Name()]
-							if al, isAlloc := b.(*ssa.Alloc); isAlloc {
-								b = singleStore(al)
-							}
-							b = Strip(b)
-							if bc, isCall := b.(*ssa.Call); isCall && IsCallTo(bc, setters[f.FullName()]) {
-								ok = true
-							}
-						}
-						c.Check(ok, "R19.2", name, "restore/"+f.Name(), cl.Pos(), "restore closure calls %s with the value read by %s before the change (arg %s)", f.FullName(), setters[f.FullName()], Desc(arg))
+						bc := source(arg)
+						ok := bc != nil && IsCallTo(bc, setters[f.FullName()])
+						c.Check(ok, "R19.2", name, "restore/"+f.Name(), cl.Pos(), "the restore function calls %s with the value read by %s before the change (arg %s)", f.FullName(), setters[f.FullName()], Desc(arg))
 					case "log.SetOutput":
-						c.Check(strings.HasSuffix(Desc(arg), "Stderr"), "R19.2", name, "restore/SetOutput", cl.Pos(), "restore closure resets the output to os.Stderr (arg %s)", Desc(arg))
+						c.Check(strings.HasSuffix(Desc(arg), "Stderr"), "R19.2", name, "restore/SetOutput", cl.Pos(), "the restore function resets the output to os.Stderr (arg %s)", Desc(arg))
 					}
 				}
 			}
@@ -296,6 +355,49 @@ func checkC19(c *Ctx) {
 	}
 
 	// ---------------- R19.3 ----------------
+	if nsk := c.Method(zp, "sinkRegistry", "newSink"); c.Anchor("R19.3", "zap.sinkRegistry.newSink", nsk != nil) {
+		// an absolute path is opened verbatim, before (and instead of) any URL parsing, on every platform
+		raw := nsk.Params[1]
+		var direct, parse *ssa.Call
+		for _, cl := range CallsDeep(nsk) {
+			c2, ok := cl.(*ssa.Call)
+			if !ok {
+				continue
+			}
+			if IsCallTo(cl, "(*go.uber.org/zap.sinkRegistry).newFileSinkFromPath") {
+				if Strip(Args(cl)[1]) == ssa.Value(raw) {
+					direct = c2
+				}
+			}
+			if IsCallTo(cl, "net/url.Parse") {
+				parse = c2
+			}
+		}
+		ok := direct != nil && parse != nil
+		var g []string
+		if ok {
+			g = AtomStrings(GuardsOfBlock(direct.Block()))
+			ok = len(g) == 1 && g[0] == "IsAbs("+raw.Name()+")" 
+			// and the parse is only reached when it is not absolute
+			pg := false
+			var site ssa.Instruction = parse
+			if parse.Parent() != nsk {
+				site = nil
+				for _, cl := range Calls(nsk) {
+					if h := helperOf(cl); h != nil {
+						for _, f := range Region(h) {
+							if f == parse.Parent() {
+								site = cl
+							}
+						}
+					}
+				}
+			}
+			pg = site != nil && containsS(AtomStrings(GuardsOfBlock(site.Block())), "!IsAbs("+raw.Name()+")")
+			ok = ok && pg
+		}
+		c.Check(ok, "R19.3", nsk.String(), "absolute-path-verbatim", nsk.Pos(), "a destination that filepath.IsAbs accepts is opened as exactly that path, under that single condition and without URL parsing (escapes, '#', '?' in a file name must not be reinterpreted); guards of the direct open: %v", g)
+	}
 	fu := c.Method(zp, "sinkRegistry", "newFileSinkFromURL")
 	if c.Anchor("R19.3", "zap.sinkRegistry.newFileSinkFromURL", fu != nil) {
 		name := fu.String()
@@ -358,14 +460,26 @@ func checkC19(c *Ctx) {
 		if !c.Anchor("R19.4", "lookup function for "+lk.reg, lk.fn != nil) {
 			continue
 		}
-		held := MustHeld(lk.fn, nil)
 		n := 0
-		AllInstrs(lk.fn, func(i ssa.Instruction) {
-			if l, ok := i.(*ssa.Lookup); ok && strings.HasSuffix(Desc(l.X), lk.reg) {
-				n++
-				c.Check(held[i][lk.mu] != 0, "R19.4", lk.fn.String(), "lookup-locked", l.Pos(), "registry lookup runs with lockset %s", held[i])
+		muSuffix := lk.mu[strings.LastIndex(lk.mu, ".")+1:]
+		for _, f := range Region(lk.fn) {
+			held := MustHeldCtx(f)
+			if f == lk.fn {
+				held = MustHeld(f, nil)
 			}
-		})
+			AllInstrs(f, func(i ssa.Instruction) {
+				if l, ok := i.(*ssa.Lookup); ok && strings.HasSuffix(Desc(l.X), lk.reg) {
+					n++
+					locked := false
+					for m, k := range held[i] {
+						if k != 0 && (m == lk.mu || strings.HasSuffix(m, "."+muSuffix) || m == muSuffix) {
+							locked = true
+						}
+					}
+					c.Check(locked, "R19.4", lk.fn.String(), "lookup-locked", l.Pos(), "registry lookup runs with lockset %s", held[i])
+				}
+			})
+		}
 		if n == 0 {
 			c.Bad("R19.4", lk.fn.String(), "lookup", lk.fn.Pos(), "no lookup of %s found", lk.reg)
 		}
@@ -373,6 +487,52 @@ func checkC19(c *Ctx) {
 	// normalizeScheme lower-cases first and returns the lowered value
 	ns := c.Func(zp, "normalizeScheme")
 	if c.Anchor("R19.4", "zap.normalizeScheme", ns != nil) {
+		// evaluated byte by byte: the accepted grammar is RFC 3986's  ALPHA *( ALPHA / DIGIT / "+" / "-" / "." ), for every
+		// byte value in first and in later position (a multi-byte character must not slip through as Latin-1 letters)
+		it := NewInterp(c)
+		alpha := func(b byte) bool { return b >= 'a' && b <= 'z' || b >= 'A' && b <= 'Z' }
+		rest := func(b byte) bool { return alpha(b) || b >= '0' && b <= '9' || b == '+' || b == '-' || b == '.' }
+		var wrong []string
+		evalErr := ""
+		nEval := 0
+		try := func(in string, want bool) {
+			if evalErr != "" {
+				return
+			}
+			r, err := it.Run(ns, []IVal{IStr(in)})
+			if err != nil || len(r) != 2 {
+				evalErr = fmt.Sprintf("normalizeScheme(%q): %v %v", in, r, err)
+				return
+			}
+			nEval++
+			accepted := r[1].K == ivNil
+			switch {
+			case accepted != want:
+				wrong = append(wrong, fmt.Sprintf("%q accepted=%v", in, accepted))
+			case accepted && (r[0].K != ivStr || r[0].S != strings.ToLower(in)):
+				wrong = append(wrong, fmt.Sprintf("%q normalised to %s", in, r[0]))
+			}
+		}
+		for b := 0; b < 256; b++ {
+			try(string([]byte{byte(b)}), alpha(byte(b)))
+			try(string([]byte{'a', byte(b)}), rest(byte(b)))
+			try(string([]byte{'Z', byte(b), 'q'}), rest(byte(b)))
+		}
+		for _, sch := range []string{"http", "FILE", "a.b+c-1", "men\u00fa", "x\u00b5", "1a", "+a", "a b"} {
+			ok := len(sch) > 0 && alpha(sch[0])
+			for i := 1; i < len(sch); i++ {
+				ok = ok && rest(sch[i])
+			}
+			try(sch, ok)
+		}
+		if evalErr != "" {
+			c.Und("R19.4", ns.String(), "scheme-grammar", ns.Pos(), "cannot evaluate the scheme validator: %s", evalErr)
+		} else {
+			if len(wrong) > 6 {
+				wrong = append(wrong[:6:6], fmt.Sprintf("… %d more", len(wrong)-6))
+			}
+			c.Check(len(wrong) == 0, "R19.4", ns.String(), "scheme-grammar", ns.Pos(), "evaluated on %d scheme strings covering every byte value in first and in later position: accepted exactly when the first byte is an ASCII letter and every other byte an ASCII letter, digit, '+', '-' or '.', and then returned lower-cased: %v", nEval, wrong)
+		}
 		for k, r := range Returns(ns) {
 			rv := RetVals(r)
 			if IsNilConst(Strip(rv[1])) {
